@@ -19,6 +19,7 @@ import Receptor.Drive.Sock
 import Receptor.Drive.Crash
 import Receptor.Drive.Stream
 import Receptor.Drive.Mirror
+import Receptor.Drive.Link
 /-! Line-protocol driver: one JSON request per line `{"e":engine,"op":op,"a":args,"r":impl-observation}`,
 one JSON reply per line `{"m":model-result,"prop":true|false|null,"why":…}` or `{"bad-op":…}`. -/
 open Lean Receptor.Drive
@@ -48,6 +49,7 @@ def dispatch (e op : String) (a r : Json) : Except String Reply :=
   | "crash" => Receptor.Drive.Crash.handle op a r
   | "stream" => Receptor.Drive.Stream.handle op a r
   | "mirror" => Receptor.Drive.Mirror.handle op a r
+  | "link" => Receptor.Drive.Link.handle op a r
   | _ => throw s!"bad-op unknown engine {e}"
 
 def handleLine (line : String) : String :=
